@@ -105,6 +105,95 @@ def applies_to(chk, rule, facts):
     return n
 
 
+JSF = "cedar_policy_core::validator::json_schema::"
+IND = " as cedar_policy_core::validator::cedar_schema::fmt::IndentedDisplay>::fmt_indented"
+
+
+def _field_seed(adt_suffix):
+    def seed(p):
+        return ["F:" + e[2] for e in p[1:] if isinstance(e, list) and e[0] == "f" and adt_suffix in str(e[3]) and e[2]]
+    return seed
+
+
+def printed_components(chk, rule, facts, fname, adt_suffix, fields, tag):
+    """Every component is printed unless its OWN absence test says there is nothing to print: no path to the Ok return avoids the
+    component's print site except through the skip edge of a test on that very component."""
+    from lib import protocol
+    f = get_fn(chk, facts, rule, fname)
+    if f is None:
+        return 0
+    L = shape.Labels(f, None, _field_seed(adt_suffix))
+    oks = protocol.ok_blocks(f) or set(cfg.return_blocks(f))
+    n = 0
+    for g in fields:
+        lab = "F:" + g
+        prints = set()
+        for b, t in f.calls():
+            c = callee(t)
+            if c.endswith(("Argument::new_display", "Argument::<'_>::new_display", "::fmt_indented", "fmt::fmt_non_empty_slice", "Display>::fmt")) or "::fmt_" in c:
+                if any(lab in L.operand_labels(o) for o in t[2]):
+                    prints.add(b)
+        own = set()
+        for b, blk in enumerate(f.blocks):
+            if blk["cl"] or blk["t"][0] != "sw":
+                continue
+            op = blk["t"][1]
+            if op[0] in ("c", "m") and lab in L.operand_labels(op):
+                own.add(b)
+        cut_edges = set()
+        for d in own:
+            sw = f.blocks[d]["t"]
+            for v, bb in [(v, bb) for v, bb in sw[2]] + [("else", sw[3])]:
+                # an edge of the component's own test from which no print site of the component is reachable is its skip edge
+                if not (cfg.reachable(f, bb, cut_blocks={d}) & prints):
+                    cut_edges.add((d, bb))
+        r = cfg.reachable(f, 0, cut_blocks=prints, cut_edges=cut_edges)
+        ok = bool(prints) and not (r & oks)
+        n += 1
+        chk.ob(rule, "%s:%s" % (tag, g), ok, "component `%s` is %s" % (g, "printed on every path unless its own test finds it absent" if ok else
+               ("never printed" if not prints else "skipped on a path that does not depend on `%s` itself (an unrelated condition returns before it is printed)" % g)),
+               where=f.where(), fn=f.name, key="%s:%s:%s" % (rule, tag, g), sample={"component": g, "print_sites": len(prints), "own_tests": len(own)})
+    return n
+
+
+def schema_printer(chk, facts):
+    rule = "C09.PRINT"
+    n = 0
+    n += printed_components(chk, rule, facts, "<" + JSF + "StandardEntityType<N>" + IND, "json_schema::StandardEntityType", ["member_of_types", "shape", "tags"], "entity")
+    n += printed_components(chk, rule, facts, "<" + JSF + "ActionType<N>" + IND, "json_schema::ActionType", ["member_of", "applies_to"], "action")
+    n += printed_components(chk, rule, facts, "<" + JSF + "NamespaceDefinition<N>" + IND, "json_schema::NamespaceDefinition", ["common_types", "entity_types", "actions"], "namespace")
+    # attribute names: bare only under is_normalized_ident, otherwise quoted and escaped; `?` exactly for optional attributes
+    f = get_fn(chk, facts, rule, "<" + JSF + "RecordType<N>" + IND)
+    if f is not None:
+        from lib import panics, protocol
+        guards = []
+        for b, t in f.calls():
+            if callee(t).endswith("SmolStr as std::clone::Clone>::clone") or callee(t).endswith("SmolStr::clone"):
+                for d, taken in cfg.guard_edges(f, b):
+                    sw = f.blocks[d]["t"]
+                    if sw[1][0] in ("c", "m"):
+                        guards.append((panics.producer(f, sw[1]), [v for v, _ in taken]))
+        call_guards = [(p, tk) for p, tk in guards if p.startswith("call:")]
+        bare_ok = any(p.endswith("ast::name::is_normalized_ident") and tk == ["else"] for p, tk in call_guards) and all(p.endswith("ast::name::is_normalized_ident") for p, tk in call_guards)
+        esc = any(callee(t).endswith("::escape_debug") for _, t in f.calls())
+        n += 1
+        chk.ob(rule, "attribute:name", bare_ok and esc, "an attribute name is written bare only when is_normalized_ident accepts it (guards on the bare copy: %s) and escaped otherwise (%s)" % ([g_[0].split("::")[-1] for g_ in guards], esc),
+               where=f.where(), fn=f.name, key="%s:attribute:name" % rule)
+        # the optionality marker
+        req = [b for b, blk in enumerate(f.blocks) if not blk["cl"] and blk["t"][0] == "sw" and blk["t"][1][0] in ("c", "m") and
+               any(isinstance(e, list) and e[0] == "f" and e[2] == "required" for _, s_ in [(0, x) for x in blk["st"]] if s_[0] == "a" for p_ in shape._rv_places(s_[2]) for e in p_[1:])]
+        marks = {}
+        for d in req:
+            sw = f.blocks[d]["t"]
+            for v, bb in [(v, bb) for v, bb in sw[2]] + [("else", sw[3])]:
+                lits = [s_[2][1][1].get("s") for x in cfg.reachable(f, bb, cut_blocks={d}) & cfg.dominated_region(f, bb) for s_ in f.blocks[x]["st"] if s_[0] == "a" and s_[2][0] == "use" and s_[2][1][0] == "k" and "s" in s_[2][1][1]]
+                marks[str(v)] = lits
+        ok = marks.get("0") == ["?"] and marks.get("else") == [""]
+        n += 1
+        chk.ob(rule, "attribute:optional", ok, "`?` is printed exactly when `required` is false: %s" % marks, where=f.where(), fn=f.name, key="%s:attribute:optional" % rule)
+    chk.floor(rule, "printed components", n, 7)
+
+
 def run(chk, facts, tier):
     facts.load_crate("cedar_policy_core.lib")
     chk.explanation = (
@@ -131,3 +220,4 @@ def run(chk, facts, tier):
         chk.ob(rule, "attribute:name", ok, "the attribute is keyed by its own name: %s" % ok, where=f.where(), fn=f.name)
     n += applies_to(chk, rule, facts)
     chk.floor(rule, "components", n, 11)
+    schema_printer(chk, facts)
